@@ -24,6 +24,9 @@
      push    the decayed work estimate: 800*D (the retargeting wants to go far up:
              the upper clamp bound binds), 50*D (far down), 200*D (in balance)
      regime  the timestamp choice of DifficultySkel's table used for every header
+     frac    the sub-second class of the chain's instants (DifficultySkel: whole
+             seconds, +1 ns, +999 999 999 ns, alternating), spread over the
+             other dimensions
 
    TLC computes D, W and the work estimate exactly, checks that the lattice keeps
    its promises (the carries and borrows really occur for these values; nothing
@@ -78,6 +81,7 @@ WOf(D, wb, j) == IF wb = 0 THEN Add(MulSmall(D, 1000), FromInt(777))
                  ELSE Add(Sub(WMark(D, wb, j), MulSmall(D, j)), DivSmall(Low(D, 64 * wb), 2))
 OakOf(D, p) == CASE p = "up" -> MulSmall(D, 800) [] p = "down" -> MulSmall(D, 50) [] p = "hold" -> MulSmall(D, 200)
 
+PushRank(p) == CASE p = "up" -> 0 [] p = "down" -> 1 [] p = "hold" -> 2
 KMin == CHOOSE k \in Ks : \A k2 \in Ks : k <= k2
 JMin == CHOOSE j \in WSteps : \A j2 \in WSteps : j <= j2
 \* one representative of every scenario (parameters that do not matter are pinned)
@@ -98,7 +102,7 @@ Next ==
              sc' = [b |-> b, dc |-> dc, k |-> k, wb |-> wb, j |-> j, D |-> D, W |-> WOf(D, wb, j)]
   \/ /\ stage = 1 /\ stage' = 2
      /\ \E s \in StartIds, iv \in Intervals, p \in Pushes, r \in Regimes :
-          sc' = [start |-> s, h |-> Starts[s].h, net |-> MagNets[Starts[s].net], interval |-> iv,
+          sc' = [frac |-> (s + r + PushRank(p) + sc.b + sc.wb + sc.j) % 4, start |-> s, h |-> Starts[s].h, net |-> MagNets[Starts[s].net], interval |-> iv,
                  push |-> p, regime |-> r, steps |-> ChainLen, oakW |-> OakOf(sc.D, p), oakTime |-> 200 * iv] @@ sc
 Spec == Init /\ [][Next]_<<sc, stage>>
 
